@@ -42,7 +42,7 @@ class SignedBytes(Obligation):
         self.what=what; self.nbytes=nbytes; self.seed=seed; self.rate=rate; self.known=set(known); self.prop=prop; self.wire=wire
         self.name='%s.%s_%s'%(prop,'wire_trip' if wire else 'signed_bytes',what)
         self.bounds={'metadata':what+' of fixed small shape (1 material, 1 product, 1 environment entry, byproducts with stdout/stderr/return-value and one extra field; layout: 1 step with 2 rules, 1 inspection, 1 key filed under its own or under another identifier)',
-                     'focus_string':'one string-bearing field at a time holds 0..%d free ASCII bytes (every control character, quote, backslash, DEL; and fixed non-ASCII samples); fields: %s'%(nbytes,', '.join(FOCI_LINK if what=='link' else FOCI_LAYOUT)),
+                     'focus_string':'one string-bearing field at a time holds 0..%d free ASCII bytes (every control character, quote, backslash, DEL; and fixed non-ASCII samples incl. U+FFFF, U+FFFE, U+2028, U+D7FF/U+E000, U+10FFFF and backslash next to U+FFFF); fields: %s'%(nbytes,', '.join(FOCI_LINK if what=='link' else FOCI_LAYOUT)),
                      'numbers':'threshold any u32 and return-value any i32 (in the paths whose focus is the numbers; otherwise fixed), digest bytes free','expiry':'fixed whole-second instants (text formatting of instants is chrono\'s; C06/C16 relate text and instant)'}
         self.witnesses=['verified_bytes_read_back','sign_and_verify_bytes_equal']+(['wire_trip_verified'] if wire else []); self.seen=set()
     # ------------------------------------------------------------------ engine setup
@@ -94,7 +94,9 @@ class SignedBytes(Obligation):
         if run.ghost['focus']!=field: return list(default.encode())
         k=run.pick(self.nbytes+2,'focus_len')
         if k==self.nbytes+1:
-            smp=['é','a ','\U0001F600'][run.pick(3,'sample')]; return list(smp.encode())
+            # fixed non-ASCII / boundary samples: Latin-1, astral, noncharacters (a favourite placeholder), line separators, BMP edges
+            SMP=['\u00e9','a ','\U0001F600','\uffff','a\\\uffff','\ufffe','\u2028','\ud7ff\ue000','\U0010ffff','\x7f\u0080']
+            smp=SMP[run.pick(len(SMP),'sample')]; return list(smp.encode())
         bs=[z3.BitVec('f_%d'%i,8) for i in range(k)]
         for x in bs: run.add(z3.ULT(x,0x80))
         run.ghost['fbytes']=bs
